@@ -481,5 +481,5 @@ func gen(r *hx.Rng, n int, tier string) []string {
 }
 
 func main() {
-	hx.Main(&hx.Config{Prop: "C25", Gen: gen, Exec: exec})
+	hx.Main(&hx.Config{Prop: "C25", Gen: gen, Exec: exec, Facts: lockFacts})
 }
